@@ -18,7 +18,7 @@ LEVEL_NOTE = "Trusted: panic = exit status 101 / abort signal / 'panicked at' on
 RULE = ("case = 1-3 corpus files (tests/rust_data, src) each with 1-5 seeded mutations (some left intact), one intact sibling with a "
         "missing reference, optional empty / >1 MiB file, mode check|edit, optional fail on OPEN_R/READ of one source file. "
         "Non-trivial = at least one mutated or faulted file; distinct = case index.")
-PROBES = ["unicode_padding", "unicode_messages", "invalid_utf8_file", "read_fault_injected", "unreadable_file_skipped", "empty_file", "large_file", "multibyte_before_bang",
+PROBES = ["many_files", "unicode_padding", "unicode_messages", "invalid_utf8_file", "read_fault_injected", "unreadable_file_skipped", "empty_file", "large_file", "multibyte_before_bang",
           "edit_mode", "check_mode"]
 ASSUMPTIONS = ["files <= ~1.5 MiB count as 'ordinary shape' for the 20 s bound"]
 DEADLINE = {"quick": 200, "thorough": 3300}
@@ -91,6 +91,11 @@ def gen(rng):
                                           [None] * 5, unicode_p=0.9)
         files["proj/src/uni_pad.rs"] = world.segs_bytes(segs)
         tags.add("unicode_padding")
+    if rng.random() < 0.012:
+        # a great many small readable files (counts around powers of two)
+        for j in range(rng.choice([256, 513, 600, 1025])):
+            files["proj/src/many/d%02d/f%04d.rs" % (j % 23, j)] = b"fn f() { info!(\"small file\"); }\n"
+        tags.add("many_files")
     sib = ("fn sibling() {\n    %s!(\"mkSIBq intact sibling\");\n}\n" % "info").encode()
     wm_extra = {p: {"t": "f", "mode": 0o644, "data": d} for p, d in files.items()}
     wm_extra[SIB] = {"t": "f", "mode": 0o644, "data": sib}
